@@ -570,8 +570,14 @@ class BaseProject(object, metaclass=ABCMeta):
             if task.target_component is not None:
                 # 3-1. Set target component of workplace if target component is ready
                 component = task.target_component
-                if component.is_ready() and not any(
-                    component is c for c in moved_component_list
+                if (
+                    component.is_ready()
+                    and not any(component is c for c in moved_component_list)
+                    and not any(
+                        len(t.allocated_worker_list) > 0
+                        or len(t.allocated_facility_list) > 0
+                        for t in component.targeted_task_list
+                    )
                 ):
                     candidate_workplace_list = task.allocated_workplace_list
                     candidate_workplace_list = sort_workplace_list(
